@@ -307,6 +307,11 @@ func (u *UntrustedInputChecker) OnVisitNodeLeave(n ExprNode) {
 	if u.safeCalls > 0 {
 		if f, ok := n.(*FuncCallNode); ok && isSafeFuncCall(f) {
 			u.safeCalls--
+			if u.safeCalls == 0 {
+				// The call is a boundary of property access chains. Without this, the chain before
+				// the call is continued by property accesses applied to the result of the call
+				u.end()
+			}
 		}
 		return
 	}
